@@ -33,7 +33,7 @@ def scenarios(tier):
     # a state variable fed from the release table, without default, not written to the files: a restart cannot know its values,
     # but the state must stay aligned (the other variables continue as in the uninterrupted run)
     out.append(dict(name="nodefault-N6-P1-R2-EF", fn="run", params=dict(N=6, P=1, R=2, adv="EF", nodefault=True), cost=30))
-    for tv in ("placeholder", "explicit", "hours", "days"):
+    for tv in ("placeholder", "explicit", "hours", "days", "nounits"):
         out.append(dict(name=f"timevar-{tv}-N6-P1-R2-EF", fn="run", params=dict(N=6, P=1, R=2, adv="EF", timevar=tv), cost=30))
     for ss in (0, 1):
         out.append(dict(name=f"settled-N6-P1-R2-EF-s{ss}", fn="run", params=dict(N=6, P=1, R=2, adv="EF", settle=True, settle_step=ss), cost=30))
@@ -63,8 +63,9 @@ def _config(W, tmp, sub, p, x0, u, temp, w0, kill, warm=None, first_file=None):
     REF = T0 - 86400
     if p.get("timevar"):
         # a time-typed particle variable, units given with the placeholder or spelled out (the reference time is then explicit)
-        units = {"placeholder": "seconds since reference_time", "explicit": "seconds since 2000-01-03 00:00:00", "hours": "hours since reference_time", "days": "days since reference_time"}[p["timevar"]]
-        pvars["release_time"] = ovar("f8", units=units, long_name="particle release time")
+        units = {"placeholder": "seconds since reference_time", "explicit": "seconds since 2000-01-03 00:00:00", "hours": "hours since reference_time", "days": "days since reference_time", "nounits": None}[p["timevar"]]
+        # without a units attribute the writer stores seconds since the reference time (documented default of Output.encode)
+        pvars["release_time"] = ovar("f8", units=units, long_name="particle release time") if units else ovar("f8", long_name="particle release time")
         svars["release_time"] = "time"
         wvars.append("release_time")
     cfg = base_config(
@@ -166,6 +167,8 @@ def run(W, p):
         if p.get("timevar"):
             # decoded release instants (value + the reference named by the variable's own units attribute)
             ua, ub = a["atts"].get("release_time", {}).get("units"), b["atts"].get("release_time", {}).get("units")
+            if p["timevar"] == "nounits":  # the default: the units of the file's time coordinate
+                ua, ub = a["atts"]["time"].get("units"), b["atts"]["time"].get("units")
             ta, tb = va.get("release_time", []), vb.get("release_time", [])
             ok = ua is not None and ub is not None and len(tb) >= len(ta)
             W.prove(W.all([_eq(W, x_ * _usec(ua) + _ref(W, ua), y_ * _usec(ub) + _ref(W, ub)) for x_, y_ in zip(ta, tb)]) if ok else False, "particle-vars-equal",
